@@ -51,7 +51,8 @@ def split_matrix_svd(A, q0, q1, tol):
         if A.shape[0] > 0:
             u[0, 0] = 1
         # ensure non-zero entry in 'u' formally matches quantum numbers
-        q = q0[:1]
+        # (any label fits if 'u' has no rows at all)
+        q = q0[:1] if A.shape[0] > 0 else np.zeros(1, dtype=int)
         # 'v' must remain zero matrix to satisfy quantum number constraints
         return (u, s, v, q)
 
